@@ -122,7 +122,12 @@ impl StepOracle for SimExecOracle {
         // the actual payout: the ask reserve falls by exactly the net return (commission stays in the pool)
         let ask = &pr.infos[1 - side];
         let d = cx.rec.delta(ask, pr.addr.as_str());
-        if d != -(ret as i128) {
+        // (a swap whose designated receiver is the pair itself pays the pair: its balance does not move)
+        let to_itself = matches!(cx.intent, Intent::Swap { receiver, .. } if receiver == pr.addr.as_str());
+        if to_itself {
+            classes.push("q:paid-to-the-pair-itself");
+        }
+        if d != if to_itself { 0 } else { -(ret as i128) } {
             return Verdict::Fail(format!("step {}: swap reports return {} but the pair's {} balance changed by {}", cx.index, ret, ask, d));
         }
         if ret >= 1 {
